@@ -20,8 +20,9 @@ func init() {
 			"(O1b) IsLesserRow is 'CompareRows < 0', the top-N max-heap's Less is the inverted comparator, the single-row top iterator replaces its candidate exactly when the new row is lesser; " +
 			"(O2) every planbuilder function that builds both clauses applies Offset first and Limit on top of it (Limit(Offset(x)): skip m then take n); " +
 			"(O3) analyzer.insertTopNNodes gives TopN the count limit+offset when an Offset is present and re-applies the Offset above the TopN; " +
-			"(O6) the in-memory backend keeps its secondary index storage ordered by a comparator that, per key column, sends two NULLs to the next column, sorts NULL before values and otherwise follows the type comparison (the order an index scan serves ORDER BY from); (O7) every executor function that composes an OFFSET iterator with sort/top-N/LIMIT iterators (set operations build all of them inline) sorts first, then skips, then limits; (O4) the top-N heap evicts its maximum exactly when it holds more than n rows; (O5) LimitIter stops exactly when pos >= limit and counts a row only after reading it; offsetIter discards while skip > 0.",
-		NotCovered: "stability/tie order, order provided by an index (replaceIdxSort), collation-specific key order (C29), the type comparison itself (C26), NullsLast orderings used by other dialects (reported as information)",
+			"(O6) the in-memory backend keeps its secondary index storage ordered by a comparator that, per key column, sends two NULLs to the next column, sorts NULL before values and otherwise follows the type comparison (the order an index scan serves ORDER BY from); (O7) every executor function that composes an OFFSET iterator with sort/top-N/LIMIT iterators (set operations build all of them inline) sorts first, then skips, then limits; (O4) the top-N heap evicts its maximum exactly when it holds more than n rows; (O5) LimitIter stops exactly when pos >= limit and counts a row only after reading it; offsetIter discards while skip > 0; " +
+			"(O8) sort elimination by index order: the arm of the analyzer's node type switch that captures a *plan.Sort node for replacement by an index scan (replaceIdxSortHelper, with isValidSortOrder and any other helper inlined), folded over {1,2,3 sort keys} x {ASC,DESC per key}, captures the node only when all keys have the same direction (an index scan, forward or reversed, serves every key column in one direction).",
+		NotCovered: "stability/tie order, the rest of replaceIdxSort (that the sort keys are the index columns at the same positions — sortExprsMatchIdxColExprs compares rendered expression strings and consults an alias map, not folded —, non-overlapping ranges, that the scan direction chosen equals the keys' direction, lists of more than 3 sort keys), collation-specific key order (C29), the type comparison itself (C26), NullsLast orderings used by other dialects (reported as information)",
 		Technique:  "finite-domain abstract interpretation of the comparator (AST folding) + constructor-operand dataflow and CFG ordering",
 		Run:        runC04,
 	})
@@ -35,6 +36,7 @@ func runC04(c *Ctx) {
 	c.Rule("C04-O4", "GetTopNRows pops the heap maximum exactly when Len() > n", 1)
 	c.Rule("C04-O6", "memory backend index order (what an index scan returns): per key column both NULL -> next column, NULL sorts before values, otherwise the sign of the type comparison, tie -> next column", 6)
 	c.Rule("C04-O7", "executor composition: in every rowexec function that builds an OFFSET iterator, no sort / top-N iterator is built after it (ORDER BY orders the rows before OFFSET skips any), and no OFFSET iterator is built after a LIMIT iterator", 2)
+	c.Rule("C04-O8", "sort elimination by index order: the arm that captures a *plan.Sort node for replacement by an index scan (replaceIdxSortHelper / isValidSortOrder), folded over {1,2,3 sort keys} x {ASC,DESC per key}, captures the node only when all keys have the same direction", 14)
 	c.Rule("C04-O5", "LimitIter.Next returns EOF exactly when currentPos >= Limit and increments only after a successful child read; offsetIter.Next discards rows while skip > 0 and decrements per discarded row", 4)
 
 	so := c.P.Pkg("sql/sorters")
@@ -255,6 +257,11 @@ func runC04(c *Ctx) {
 	}
 
 	// ---- O3 ---------------------------------------------------------------------------------------
+	if an := c.P.Pkg("sql/analyzer"); an != nil {
+		c04SortGuard(c, an)
+	} else {
+		c.Undecided("C04-O8", "sql/analyzer", 0, "package not loaded")
+	}
 	if an := c.P.Pkg("sql/analyzer"); an != nil {
 		fd := c.P.Decl(LookupFunc(an, "insertTopNNodes"))
 		newTopN := LookupFunc(planPk, "NewTopN")
